@@ -32,7 +32,7 @@ T = 'chainables.tree'
 
 
 def run(ctx: Ctx):
-  for r in (r1, r2, r3, r4, r5, r6, r7, r8, r9, r10, r11, r12, r13, r14, r15, r16, r17, r18, r19):
+  for r in (r1, r2, r3, r4, r5, r6, r7, r8, r9, r10, r11, r12, r13, r14, r15, r16, r17, r18, r19, r20, r21):
     ctx.guard(r)
 
 
@@ -900,10 +900,75 @@ def r19(ctx: Ctx):
   ctx.floor(rule, 1, 1)
 
 
+def r20(ctx: Ctx):
+  rule = 'R-C18-20'
+  ctx.rule(rule, '"every other path reads as before": a field that HOLDS None is a leaf like 0 or \'\' — only a MISSING key stands'
+           ' for "nothing there yet". `_set_by_path` fetches the child it descends into with a default for the missing key'
+           ' (`node.get(key, NullMap())`) and never tests the fetched child against None: treating a stored None as absent'
+           ' silently replaces it by a fresh container when a longer path is set through it, where every other leaf parent'
+           ' (0, a string) is an error')
+  ci = ctx.repo.cls(T, 'TreeMapView')
+  fi = ci.methods.get('_set_by_path')
+  if fi is None:
+    raise AnalysisError(f'{rule}: TreeMapView._set_by_path not found')
+  fetched = set()
+  for x in ast.walk(fi.node):
+    v = x.value if isinstance(x, (ast.Assign, ast.NamedExpr)) else None
+    if v is not None and ((isinstance(v, ast.Call) and isinstance(v.func, ast.Attribute) and v.func.attr == 'get') or isinstance(v, ast.Subscript)):
+      tg = x.targets[0] if isinstance(x, ast.Assign) else x.target
+      if isinstance(tg, ast.Name):
+        fetched.add(tg.id)
+  bad = None
+  for c in ast.walk(fi.node):
+    if isinstance(c, ast.Compare) and any(isinstance(o, (ast.Is, ast.IsNot)) for o in c.ops) and any(
+        isinstance(k, ast.Constant) and k.value is None for k in c.comparators):
+      left = c.left.target if isinstance(c.left, ast.NamedExpr) else c.left
+      if (isinstance(left, ast.Name) and left.id in fetched) or isinstance(c.left, ast.NamedExpr) or (
+          isinstance(c.left, ast.Call) and isinstance(c.left.func, ast.Attribute) and c.left.func.attr == 'get'):
+        bad = c
+  what = 'TreeMapView._set_by_path: a stored None is a leaf, not a missing key'
+  if bad is not None:
+    ctx.fail(rule, fi, what,
+             f'`{unparse(bad)[:60]}` treats a child that IS None like a missing one: setting a longer path through a field that holds'
+             ' None replaces the None by a new container instead of failing like for any other leaf', node=bad)
+  else:
+    ctx.ok(rule, fi, what, fi.node)
+  ctx.floor(rule, 1, 1)
+
+
+def r21(ctx: Ctx):
+  rule = 'R-C18-21'
+  ctx.rule(rule, '"for ... all sequences of copy-and-set operations": copy_and_update applies an iterable of (key, value) pairs IN'
+           ' SEQUENCE, like the same copy_and_set calls one after the other. It does not pass a non-mapping argument'
+           ' through `dict(...)`: a dict keeps a repeated key at its FIRST position with its LAST value, so resetting a'
+           ' parent after writing below it ([(a, {}), (a.y, 5), (a, {z: 0})]) leaves the child written after the reset')
+  ci = ctx.repo.cls(T, 'TreeMapView')
+  fi = ci.methods.get('copy_and_update')
+  if fi is None:
+    raise AnalysisError(f'{rule}: TreeMapView.copy_and_update not found')
+  ps = set(fi.params()[1:])
+  bad = [c for c in ast.walk(fi.node) if isinstance(c, ast.Call) and unparse(c.func) in ('dict', 'collections.OrderedDict', 'OrderedDict')
+         and c.args and isinstance(c.args[0], ast.Name) and c.args[0].id in ps]
+  what = 'TreeMapView.copy_and_update: key/value pairs are applied in the order given'
+  if bad:
+    ctx.fail(rule, fi, what,
+             f'`{unparse(bad[0])}` turns the sequence of writes into a mapping: a key that occurs twice keeps its first POSITION and'
+             ' its last VALUE — the batched update no longer equals the sequence of copy_and_set calls', node=bad[0])
+  else:
+    ctx.ok(rule, fi, what, fi.node)
+  ctx.floor(rule, 1, 1)
+
+
 from mlmverif.selfcheck import B, OK  # noqa: E402
 
 _F = 'chainables/tree.py'
 VARIANTS = [
+    B('none-parent-taken-for-a-missing-key', 'chainables/tree.py',
+      "          result[key] = self._set_by_path(\n              result.get(key, NullMap()), Key(rest_keys), value, in_place\n          )",
+      "          if (child := result.get(key)) is None:\n            child = NullMap()\n          result[key] = self._set_by_path(\n              child, Key(rest_keys), value, in_place\n          )", 'R-C18-20'),
+    B('update-pairs-collapsed-through-dict', 'chainables/tree.py',
+      "    if isinstance(other, Mapping):\n      return self.copy_and_set(*zip(*other.items(), strict=True))\n    else:\n      return self.copy_and_set(*zip(*other, strict=True))",
+      "    if not isinstance(other, Mapping):\n      other = dict(other)\n    return self.copy_and_set(*zip(*other.items(), strict=True))", 'R-C18-21'),
     B('getter-narrowed-to-builtin-containers', 'chainables/tree.py',
       "      if types.is_array_like(data) or isinstance(data, Mapping):\n        data = data[k]", "      if isinstance(data, (Mapping, list, tuple)):\n        data = data[k]", 'R-C18-18'),
     B('setter-pops-the-child-it-updates', 'chainables/tree.py',
